@@ -6,6 +6,8 @@
 package main
 
 import (
+	"time"
+
 	"crypto/sha256"
 	"encoding/json"
 	"fmt"
@@ -157,6 +159,15 @@ runs:
 			if out.rr.Truncated {
 				res.Probes["switch-list-truncated"]++
 			}
+			if out.rr.Daemons > 0 {
+				res.Probes["runs-with-library-started-goroutines-alive"]++
+			}
+			if out.rr.DaemonSwitch {
+				res.Probes["library-started-goroutine-ran-while-a-caller-was-inside-a-call"]++
+			}
+			res.ClockJumps += out.rr.ClockJumps
+			res.TimersFired += out.rr.TimersFired
+			res.SimNanos = out.rr.SimNow
 			if cmd.RecordHot {
 				for i := range spec.Tasks {
 					hy := make([]c14sim.HotYield, len(out.rr.Hot[i]))
@@ -168,6 +179,10 @@ runs:
 			}
 			if len(res.Samples) < 2 && out.rr.Nontrivial && (ri == 0 || ri == 3) {
 				res.Samples = append(res.Samples, sampleOf(&spec, out, pool))
+			}
+			if out.stuck != "" {
+				res.Stuck = out.stuck
+				break runs
 			}
 			if out.violation != nil {
 				v := out.violation
@@ -232,6 +247,7 @@ type runOut struct {
 	violation    *c14sim.Violation
 	sameKeyTasks bool
 	sharedTasks  bool
+	stuck        string
 }
 
 func executeRun(spec *c14sim.RunSpec, pool []*c14sim.Key, recordHot bool) *runOut {
@@ -300,7 +316,15 @@ func executeRun(spec *c14sim.RunSpec, pool []*c14sim.Key, recordHot bool) *runOu
 	for ti := range spec.Tasks {
 		ts := spec.Tasks[ti]
 		bodies[ti] = func(ti int) {
+			jr := spec.Seed*0x9e3779b97f4a7c15 + uint64(ti)*0xbf58476d1ce4e5b9 + 1
 			for ci, cs := range ts.Calls {
+				// "time passes" between calls (clock jump fault): only matters if the tree has a clock
+				jr ^= jr << 13
+				jr ^= jr >> 7
+				jr ^= jr << 17
+				if spec.ClockJumps && jr%3 == 0 {
+					zzsimrt.AdvanceClock([]time.Duration{time.Millisecond, 150 * time.Millisecond, 2 * time.Second, 7 * time.Second, time.Minute, time.Hour}[(jr>>8)%6])
+				}
 				k := pool[cs.Key]
 				y0 := zzsimrt.TaskYields()
 				r, mv, again := c14sim.DoCallKeep(k, cs.Form, shared[cs.Shared], hooks)
@@ -312,6 +336,9 @@ func executeRun(spec *c14sim.RunSpec, pool []*c14sim.Key, recordHot bool) *runOu
 	switch out.rr.Outcome {
 	case zzsimrt.OutcomeDeadlock:
 		out.violation = &c14sim.Violation{Class: "deadlock", Detail: out.rr.Detail}
+		return out
+	case zzsimrt.OutcomeStuck:
+		out.stuck = out.rr.Detail
 		return out
 	case zzsimrt.OutcomeBudget:
 		out.violation = &c14sim.Violation{Class: "no-progress", Detail: out.rr.Detail + ": a call whose lone reference call terminated did not finish within the step budget"}
